@@ -42,6 +42,9 @@ type Packet struct {
 const packetMAGIC uint32 = 0x810b00ff
 const maxPACKETLENGTH int = 8192
 
+// maxSHAPEDIMS is the most dimensions Packet.NewData accepts: 24+16+8+8*(1+99/4) = 248 <= 255.
+const maxSHAPEDIMS int = 99
+
 // TLV types
 const (
 	tlvNULL          = byte(0)
@@ -207,6 +210,22 @@ func (p *Packet) ReadValue(sample int) int {
 // NewData adds data to the packet, and creates the format and shape TLV items to match.
 func (p *Packet) NewData(data interface{}, dims []int16) error {
 	ndim := len(dims)
+	// The decoder wants at least one positive size and drops the others, so the shape must have
+	// 1+ dimensions, all positive; the one-byte header length leaves room for maxSHAPEDIMS of them
+	// (plus a timestamp); and no payload can hold more than 65535 values per frame.
+	if ndim < 1 || ndim > maxSHAPEDIMS {
+		return fmt.Errorf("Packet.NewData needs 1 to %d dimensions, got %d", maxSHAPEDIMS, ndim)
+	}
+	nvalues := 1
+	for _, d := range dims {
+		if d <= 0 {
+			return fmt.Errorf("Packet.NewData needs positive dimensions, got %v", dims)
+		}
+		nvalues *= int(d)
+		if nvalues > math.MaxUint16 {
+			return fmt.Errorf("Packet.NewData dimensions %v multiply to more than %d values per frame", dims, math.MaxUint16)
+		}
+	}
 	p.headerLength = 24
 	if p.timestamp != nil {
 		p.headerLength += 16
